@@ -53,7 +53,8 @@ CfgRecord ==
   [ players |-> NumPlayers, window |-> Window, sparse |-> Sparse,
     predictor |-> IF PredDefault THEN "default" ELSE "repeat",
     desync |-> DesyncInterval, notify |-> Notify, timeout |-> Timeout,
-    max_behind |-> MaxBehind, catchup |-> Catchup, max_delay |-> 8, peers |-> Peers, waitapi |-> WaitMs > 0 ]
+    max_behind |-> MaxBehind, catchup |-> Catchup, max_delay |-> 8, peers |-> Peers, waitapi |-> WaitMs > 0,
+    presynced |-> PreSynced ]
 
 \* spectators attached to host p get the handles NumPlayers, NumPlayers+1, ... in peer order
 SpecsOf(p) == SelectSeq([i \in 1..N |-> i - 1], LAMBDA q : Peers[q+1].kind = "spec" /\ Peers[q+1].host = p)
